@@ -193,7 +193,10 @@ impl Session {
 
     /// Some(finding id) if the failure's signature is a recorded *known* (not fixed) finding
     pub fn known_sig(&self, sig: &str) -> Option<String> {
-        self.known.iter().find(|f| f.status == "known" && !f.signature.is_empty() && sig == f.signature).map(|f| f.id.clone())
+        self.known
+            .iter()
+            .find(|f| f.status == "known" && !f.signature.is_empty() && f.signature.split('|').any(|pat| glob_match(pat.trim(), sig)))
+            .map(|f| f.id.clone())
     }
 
     fn note_failure(&self, f: Failure) {
@@ -538,4 +541,30 @@ pub fn hash_case(parts: &[&str]) -> u64 {
         h = h.rotate_left(13) ^ fnv(p.as_bytes());
     }
     h
+}
+
+/// `*` matches any run of characters; everything else literally. Signatures of known findings use
+/// it only for the part of a signature that names *how* a recorded class of failure shows.
+pub fn glob_match(pat: &str, s: &str) -> bool {
+    let parts: Vec<&str> = pat.split('*').collect();
+    if parts.len() == 1 {
+        return pat == s;
+    }
+    let mut rest = s;
+    for (i, p) in parts.iter().enumerate() {
+        if i == 0 {
+            if !rest.starts_with(p) {
+                return false;
+            }
+            rest = &rest[p.len()..];
+        } else if i == parts.len() - 1 {
+            return rest.ends_with(p);
+        } else {
+            match rest.find(p) {
+                Some(k) => rest = &rest[k + p.len()..],
+                None => return false,
+            }
+        }
+    }
+    true
 }
